@@ -270,7 +270,16 @@ func judge(run *hx.Run, l *linter, w *wsT, b *built, c lintCfg, what string, exp
 	got := map[string]bool{}
 	gotModelled := map[string]bool{}
 	detail := map[string]string{}
+	cycleCount := map[string]int{}
 	for _, a := range anns {
+		// PACKAGE_NO_IMPORT_CYCLE: an import statement belongs to ONE (package, directly imported
+		// package) pair, so it is annotated at most once ("exactly once" with the owed set below)
+		if a.rule == "PACKAGE_NO_IMPORT_CYCLE" {
+			if cycleCount[a.key()]++; cycleCount[a.key()] == 2 {
+				run.Fail(hx.OracleFailure{Class: "c05-import-cycle-annotated-twice", What: fmt.Sprintf("%s: %s %s:%d:%d is reported more than once", what, a.rule, a.file, a.line, a.col),
+					Input: map[string]any{"config": c.String(), "files": b.texts}, Replay: replay})
+			}
+		}
 		got[a.key()] = true
 		detail[a.key()] = fmt.Sprintf("%s %s:%d:%d %s", a.rule, a.file, a.line, a.col, a.msg)
 		if !unmodelled[a.rule] {
@@ -299,7 +308,11 @@ func judge(run *hx.Run, l *linter, w *wsT, b *built, c lintCfg, what string, exp
 			if strings.Contains(k, "unknown-position") {
 				cls = "c05-annotation-at-wrong-position"
 			}
-			run.Fail(hx.OracleFailure{Class: cls, What: fmt.Sprintf("%s [%s]: unexpected annotation %s", what, c.String(), detail[k]),
+			note := ""
+			if c2, ok := unexpectedClass[k]; ok {
+				cls, note = c2, " — "+unexpectedNote[k] // the comment shape family (comments.go): a documented element was flagged
+			}
+			run.Fail(hx.OracleFailure{Class: cls, What: fmt.Sprintf("%s [%s]: unexpected annotation %s%s", what, c.String(), detail[k], note),
 				Input: map[string]any{"config": c.String(), "files": b.texts, "expected": sortedKeys(want), "got": sortedKeys(got)}, Replay: replay})
 		}
 	}
@@ -416,16 +429,22 @@ func sectionB(run *hx.Run, r *hx.Rand) {
 		}
 		run.Count(fmt.Sprintf("B:workspace:files=%d", len(w.files)))
 		for _, v := range versions {
+			if onlyNewFamilies {
+				break
+			}
 			for _, use := range [][]string{{"MINIMAL"}, {"BASIC"}, {"STANDARD"}, {"COMMENTS"}, {"UNARY_RPC"}, allUse(v)} {
 				judge(run, l, w, b, lintCfg{v, use, o, nil}, fmt.Sprintf("clean workspace %d", wi), nil, replay)
 			}
 		}
-		plantAll(run, l, rr, w, o, wi, replay, nil, false)
+		if !onlyNewFamilies {
+			plantAll(run, l, rr, w, o, wi, replay, nil, false)
+		}
+		commentShapeFamily(run, l, rr, w, o, wi, replay, run.N(3, 8))
 	}
 	// the name-collision family (collide.go): workspaces numbered from 100
 	for ci, nc := 0, run.N(2, 4); ci < nc; ci++ {
 		wi := 100 + ci
-		if !wantWorkspace(wi) {
+		if !wantWorkspace(wi) || onlyNewFamilies {
 			continue
 		}
 		rr := r.Fork(uint64(wi))
@@ -457,7 +476,7 @@ func sectionB(run *hx.Run, r *hx.Rand) {
 	// one per run (the thorough tier runs two seeds, hence two of them)
 	for ci, nc := 0, 1; ci < nc; ci++ {
 		wi := 200 + ci
-		if !wantWorkspace(wi) {
+		if !wantWorkspace(wi) || onlyNewFamilies {
 			continue
 		}
 		rr := r.Fork(uint64(wi))
@@ -481,7 +500,13 @@ func sectionB(run *hx.Run, r *hx.Rand) {
 		}
 		plantAll(run, l, rr, w, o, wi, replay, nil, true)
 	}
+	// the package import cycle family (cycles.go), workspaces numbered from 300
+	cycleFamily(run, l, r)
 }
+
+// onlyNewFamilies: C05_FAMILIES=1 runs only the comment shape family (on the regular workspaces, without
+// their other plants) and the import cycle family — a development aid for cheap seed sweeps (~3 s per seed)
+var onlyNewFamilies = os.Getenv("C05_FAMILIES") != ""
 
 // wantWorkspace: C05_WS=3,100,200 restricts Section B to these workspaces (development / replay aid;
 // Section A is skipped then)
